@@ -292,17 +292,34 @@ def replay_case(case):
         org = np.array([exact.dyf(c) for c in case["origin"]])
         orders = np.array(case["orders"], dtype=int).reshape(-1, 3)
         got = f(shells1, org, orders, transform=T) if T is not None else f(shells1, org, orders)
-        res["dev"]["moment"] = compare(V, "moment_integral", got, tr2(want), 1e-8 * tr2abs(wantabs) + 1e-13, case)
+        # floor: 1e-11 of the largest element of the array (the natural scale of these moments; see the momentum case)
+        res["dev"]["moment"] = compare(V, "moment_integral", got, tr2(want),
+                                       1e-8 * tr2abs(wantabs) + 1e-11 * float(np.abs(tr2(want)).max()) + 1e-13, case)
     elif what in ("momentum", "angmom"):
         modname = "gbasis.integrals.momentum" if what == "momentum" else "gbasis.integrals.angular_momentum"
         fname = "momentum_integral" if what == "momentum" else "angular_momentum_integral"
         f = getattr(gb.mod(modname), fname)
         got = f(shells1, transform=T) if T is not None else f(shells1)
         w = -1j * tr2(want)
-        res["dev"][what] = compare(V, fname, got, w, 1e-8 * tr2abs(wantabs) + 1e-13, case)
+        # "exact" is judged relative to the sum of absolute terms, with a floor at 1e-10 of the NATURAL scale of the element:
+        # |<a|p|b>| <= sqrt(2 T_aa) for normalised functions, and |<a|L|b>| <= (|A| + extent) sqrt(2 T_aa).  Without the
+        # floor an odd-parity element between almost coincident centres (value ~ displacement) would be held to an absolute
+        # accuracy no double-precision evaluation at coordinates ~100 bohr can have.
+        kin, _, _ = oracle(dict(case, tlc=None), "kinetic")
+        nat = np.sqrt(2 * np.abs(np.diag(kin[:n1, :n1])))
+        if what == "angmom":
+            ext = []
+            for sh in b1:
+                Rk = float(sum(exact.dy(c) ** 2 for c in sh["center"])) ** 0.5 + 1.0 / min(exact.dyf(e) for e in sh["exps"]) ** 0.5
+                ext += [Rk] * layout.size(sh)
+            nat = nat * np.array(ext)
+        if T is not None:
+            nat = np.abs(T) @ nat
+        floor = 1e-10 * np.sqrt(nat[:, None] * nat[None, :])[:, :, None]
+        res["dev"][what] = compare(V, fname, got, w, 1e-8 * tr2abs(wantabs) + floor, case)
         herm = np.conj(np.swapaxes(got, 0, 1))
         res["dev"][what + "_hermitian"] = compare(V, fname + " Hermitian", got, herm,
-                                                  2e-8 * tr2abs(wantabs) + 1e-13, case)
+                                                  2e-8 * tr2abs(wantabs) + 2 * floor, case)
     return res
 
 
@@ -371,11 +388,18 @@ def gen_basis_cases(pid, what, seed, tier, lmax, count, extra, start_id, with_se
             # factors (high l, high moment order, far origin) can make such integrals large
             n = max(n, 2)
             basis = [cg.shell(rng, rng.randint(1, lmax), K=rng.randint(1, 2), bits=bits, lo=0.02, hi=0.12, span=18.0) for _ in range(n)]
+        elif d % 4 == 3:
+            # a molecule far from the coordinate origin (tens of bohr) with the FULL exponent range, shells on one centre or
+            # 1e-3..1e-5 bohr apart: translation invariance must survive tight primitives (exponent * |A|^2 ~ 1e9)
+            o = cg.far_origin(rng)
+            n = max(n, 2)
+            basis = [cg.shell(rng, rng.randint(0, min(lmax, 2)), K=rng.randint(1, 3), bits=bits,
+                              cen=o if rng.random() < 0.6 else cg.add(o, cg.tiny_offset(rng))) for _ in range(n)]
         else:
             cens = [cg.center(rng) for _ in range(3)]
             basis = [cg.shell(rng, rng.randint(0, lmax), bits=bits, cen=rng.choice(cens) if rng.random() < 0.6 else None)
                      for _ in range(n)]
-        c = {"id": start_id + d, "pid": pid, "what": what, "kind": "basis", "basis": basis, "spread": d % 4 == 1}
+        c = {"id": start_id + d, "pid": pid, "what": what, "kind": "basis", "basis": basis, "spread": d % 4 == 1, "far": d % 4 == 3}
         if with_second and d % 2 == 0:
             c["basis2"] = [cg.shell(rng, rng.randint(0, lmax), bits=bits,
                                     cen=rng.choice(cens) if rng.random() < 0.5 else None)
@@ -410,6 +434,8 @@ def extras_for(pid, what):
             far = rng.random()
             if c.get("spread"):
                 far = 0.9
+            if c.get("far") or c.get("near"):
+                far = 0.1
             if far < 0.3:
                 org = list(c["basis"][0]["center"])
             elif far < 0.8:
